@@ -242,8 +242,10 @@ def clauses(tier, seed):
 
 
 def _pyvc_clauses():
+  from contracts import conformance_contracts as _conf
+  _extra = [_conf.clauses()[k] for k in ['C17']]
   from contracts import interp_contracts
-  return interp_contracts.clauses()
+  return interp_contracts.clauses() + _extra
 
 
 MANIFEST = {
